@@ -860,7 +860,13 @@ pub fn gen_triggers(d: &Desc) -> Vec<&'static str> {
             if matches!(f.kind, FieldKind::Body) && !t.contains(&"body-field") {
                 t.push("body-field");
             }
-            if let FieldKind::ElementSize { field_id, .. } = &f.kind {
+            if let FieldKind::ElementSize { field_id, width } = &f.kind {
+                // an element-size field (or the size field of the same array) that is not a
+                // whole number of octets wide
+                let odd_size = decl.fields().iter().any(|g| matches!(&g.kind, FieldKind::Size { field_id: t2, width: w2 } if t2 == field_id && w2 % 8 != 0));
+                if (width % 8 != 0 || odd_size) && !t.contains(&"elementsize-with-non-octet-width") {
+                    t.push("elementsize-with-non-octet-width");
+                }
                 let scalar_elems = decl.fields().iter().any(|g| matches!(&g.kind, FieldKind::Array { id, elem, .. } if id == field_id && (matches!(elem, Elem::Width(_)) || matches!(elem, Elem::Type(t3) if matches!(d.get(t3).map(|x| &x.kind), Some(DeclKind::Enum { .. }))))));
                 if scalar_elems && !t.contains(&"elementsize-of-scalar-or-enum-elements") {
                     t.push("elementsize-of-scalar-or-enum-elements");
